@@ -33,13 +33,23 @@ def cases(tier, seed):
     ng = 26 if tier == "quick" else 700
     from vf.gen import consgen
     from vf.ref import constraint_sem as cs
-    names = list(SPECS)
+    names = ["kvc", "msg", "two"]
     for i in range(ng):
         text, info, reps = SPECS[names[i % 3]]
         cons = [consgen.rand_formula(rng, info) for _ in range(rng.choice([0, 1, 2]))]
         spec = text + "".join("where " + cs.to_text(x) + "\n" for x in cons)
         words = {"kvc": ["s:1a=1;", "s:2a=1;b=25;0", "s:0"], "msg": ["s:1:xyy", "s:2:[x]1"], "two": ["s:1p|178", "s:2pq|0"]}[names[i % 3]]
         out.append({"key": f"gen-{names[i % 3]}-{i}", "cfg": {"spec": spec, "settings": _settings(rng), "random_seed": rng.randrange(10000), "parse_inputs": words}})
+    # hard disjunctions over different symbols: an unsatisfied individual reports failing parts from several disjuncts,
+    # and the search has to go through many mutation / crossover generations
+    for i in range(8 if tier == "quick" else 120):
+        k = rng.choice([3, 4])
+        rel = rng.choice(["int(<a>) == 3 * int(<b>) + 17 or int(<c>) + int(<d>) == {t}", "int(<a>) + int(<b>) == {t} or int(<c>) == 2 * int(<d>) + 1 or int(<a>) == int(<d>) + 7",
+                          "(int(<a>) == int(<b>) + 1 and int(<c>) > int(<d>)) or int(<b>) * 2 == int(<c>) + {t}", "int(<a>) == {t} or int(<b>) == {t} or int(<c>) == {t} or int(<d>) == {t}"])
+        spec = ("<start> ::= <a> ',' <b> ',' <c> ',' <d>\n" + "".join(f"<{x}> ::= <digit>{{{k}}}\n" for x in "abcd") + "<digit> ::= '0' | '1' | '2' | '3' | '4' | '5' | '6' | '7' | '8' | '9'\n"
+                + "where " + rel.format(t=rng.randrange(10 ** (k - 1), 10 ** k)) + "\n")
+        st = dict(population_size=rng.choice([10, 20]), max_generations=rng.choice([15, 30]), desired_solutions=rng.choice([10, 25]))
+        out.append({"key": f"disj-{i}", "cfg": {"spec": spec, "settings": st, "random_seed": rng.randrange(10000), "parse_inputs": [",".join(["7" * k] * 4), "12"]}})
     tn = list(TEMPLATES)
     for i in range(6 if tier == "quick" else 100):
         body, cons = TEMPLATES[tn[i % len(tn)]]
